@@ -560,3 +560,41 @@ func init() {
 		return src, out, ok, err
 	}
 }
+
+// C05: a last() value containing the aggregate delimiter does not survive the wire.
+func init() {
+	specialReplays["mapr.(*AggregateSet).Serialize#inv-pres:loop2/step:values-free-of-wire-delimiters"] = func(P *Program, v *ObligResult) (string, string, bool, error) {
+		cp := P.SSA[modPath+"/internal/mapr/client"]
+		if cp == nil {
+			return "", "", false, fmt.Errorf("package mapr/client not loaded")
+		}
+		g := &goGen{P: P, model: v.Model, pkg: cp.Pkg, imports: map[string]bool{"testing": true, "fmt": true, "context": true, "strings": true, modPath + "/internal/mapr": true}}
+		body := `q, err := mapr.NewQuery("select last($msg),count($line) from stats group by $hostname")
+		if err != nil {
+			t.Skip(err)
+		}
+		value := "disk sda1 ∥ sdb1 full"
+		// server side: one line whose $msg holds the value
+		set := mapr.NewAggregateSet()
+		set.Aggregate("last($msg)", mapr.Last, value, false)
+		set.Aggregate("count($line)", mapr.Count, "x", false)
+		set.Samples = 1
+		ch := make(chan string, 1)
+		set.Serialize(context.Background(), "host1", ch)
+		message := <-ch
+		// client side
+		global := mapr.NewGlobalGroupSet()
+		a := NewAggregate("server1", q, global)
+		if err := a.Aggregate(message); err != nil {
+			panic(fmt.Sprintf("the server's own message is rejected by the client: %v", err))
+		}
+		a.Flush()
+		res, _, _ := global.Result(q, 10)
+		if !strings.Contains(res, "sdb1 full") {
+			panic(fmt.Sprintf("last($msg) was %q on the server; after the wire the client shows a cut value: %q", value, res))
+		}`
+		src := g.testFile(cp.Pkg, body)
+		out, ok, err := runOverlayTest(P, cp.Pkg, src)
+		return src, out, ok, err
+	}
+}
